@@ -304,4 +304,40 @@ int_to_decimal!(c13_int2dec_i64_d128_s3__exact_or_error, PhysicalI64, i64, Decim
 int_to_decimal!(c13_int2dec_u128_d128_s2__exact_or_error, PhysicalU128, u128, Decimal128Type, i128, 38, 2);
 dec_to_dec!(c13_dec2dec_d64_d128_m5__rescale, Decimal64Type, i64, decimal64, 18, Decimal128Type, i128, decimal128, 38, -5, true);
 
+// ---- DecimalToDecimal::bind on EVERY pair of precisions and scales a DataType can carry (u8 x i8 each: complete, no
+// bound; the parser and resolver admit any i8 scale not above the precision): Ok or Err, never a trap (i8 subtraction,
+// power of ten); Ok => the state is (s1 - s2, 10^|s1 - s2| in the target's storage type, target precision) ----
+macro_rules! dec_to_dec_bind {
+    ($name:ident, $D1:ty, $mk1:ident, $D2:ty, $mk2:ident, $max_exp:expr) => {
+        #[kani::proof]
+        #[kani::unwind(10)]
+        #[kani::stub(std::fmt::format, stub_format)]
+        #[kani::stub(std::backtrace::Backtrace::capture, stub_backtrace_capture)]
+        #[kani::stub(glaredb_error::DbError::new, stub_dberror_new)]
+        fn $name() {
+            let (s1, s2): (i8, i8) = (kani::any(), kani::any());
+            let (p1, p2): (u8, u8) = (kani::any(), kani::any());
+            let src = DataType::$mk1(DecimalTypeMeta::new(p1, s1));
+            let target = DataType::$mk2(DecimalTypeMeta::new(p2, s2));
+            kani::cover!(s1 == -128 && s2 == 127);
+            kani::cover!(s1 == 30 && s2 == 0);
+            match DecimalToDecimal::<$D1, $D2>::new().bind(&src, &target) {
+                Ok(st) => {
+                    let d = s1 as i32 - s2 as i32;
+                    assert!(st.scale_diff as i32 == d, "scale difference wrapped");
+                    assert!(d.unsigned_abs() <= $max_exp, "a power of ten beyond the storage type was accepted");
+                    assert!(st.scale_amount as i128 == POW10[d.unsigned_abs() as usize], "scale factor is not 10^|s1 - s2|");
+                    assert!(st.precision == p2, "target precision lost");
+                    std::mem::forget(st);
+                }
+                Err(e) => std::mem::forget(e),
+            }
+        }
+    };
+}
+dec_to_dec_bind!(c13c15_dec2dec_bind_d64_d64__any_scales_ok_or_err_no_trap, Decimal64Type, decimal64, Decimal64Type, decimal64, 18);
+dec_to_dec_bind!(c13c15_dec2dec_bind_d128_d64__any_scales_ok_or_err_no_trap, Decimal128Type, decimal128, Decimal64Type, decimal64, 18);
+dec_to_dec_bind!(c13c15_dec2dec_bind_d64_d128__any_scales_ok_or_err_no_trap, Decimal64Type, decimal64, Decimal128Type, decimal128, 38);
+dec_to_dec_bind!(c13c15_dec2dec_bind_d128_d128__any_scales_ok_or_err_no_trap, Decimal128Type, decimal128, Decimal128Type, decimal128, 38);
+
 include!("/verif/build/kani-gen/to_decimal.playback.rs");
